@@ -211,11 +211,14 @@ def main(argv=None):
         ev = {"property_id": prop, "tier": a.tier, "seed": seed, "level": level,
               "coverage": cov, "assumptions": getattr(mod, "ASSUMPTIONS", []),
               "wall_s": round(wall, 2), "violations": len(new_mechs)}
-        os.makedirs(os.path.join(VERIF, "evidence"), exist_ok=True)
-        tmp = os.path.join(VERIF, "evidence", prop + ".json.tmp")
-        with open(tmp, "w") as f:
-            json.dump(ev, f, indent=1, default=repr)
-        os.replace(tmp, os.path.join(VERIF, "evidence", prop + ".json"))
+        # evidence describes /repo itself: a run against a scratch copy (VERIF_REPO, mutation/refactoring tests) writes none
+        evdir = os.environ.get("VERIF_EVIDENCE_DIR") or (os.path.join(VERIF, "evidence") if os.path.abspath(env.REPO) == "/repo" else None)
+        if evdir:
+            os.makedirs(evdir, exist_ok=True)
+            tmp = os.path.join(evdir, prop + ".json.tmp")
+            with open(tmp, "w") as f:
+                json.dump(ev, f, indent=1, default=repr)
+            os.replace(tmp, os.path.join(evdir, prop + ".json"))
 
     shutil.rmtree(scratch, ignore_errors=True)
     for ln in lines_out:
